@@ -145,6 +145,23 @@ CHECKS.update({
    tech="Lean 4 proof (cache invariant by induction over the query history; algebra over Q) + value correspondence and bit-wise cache-transparency predicate",
    ref="DESIGN.md §3 C15"),
 })
+CHECKS.update({
+ 'C10': dict(
+   text="Lean theorems for the Z-method loop over Q, for every z-score array, band sizes and threshold sequence: zLoop_total (terminates within K + n + 2 rounds once the threshold sequence is below min z "
+        "from round K on; every productive round removes the selected point), zKnees_valid, zKnees_strict, sweep_heights (non-increasing heights), zLoop_sep / zLoop_final_separated / zPoints_separated (any two reported "
+        "knees are >= w apart in x and >= h apart in y - single- AND multi-group rounds, via the invariant Sep/Clear and the group-gap lemma), zLoop_outl_from_pts. Tie: exact index correspondence of zmethod.knees with the "
+        "model fed the package's own z-scores, integer band width, float band height and float threshold sequence; direct separation/ordering predicates on the real result.",
+   note=TB + " dz below the float resolution of 3.0 is outside the generators (exact arithmetic cannot exhibit absorption); z-score ties between same-round groups are relational.",
+   tech="Lean 4 proof (separation invariant + length-decreasing productive rounds) + exact oracle-fed differential correspondence",
+   ref="DESIGN.md §3 C10"),
+ 'C20': dict(
+   text="(b) linking - translator + kernel-decided finite table: harness/linkgraph.py regenerates Knee/Generated/LinkTable.lean from /repo/src on every run (CPython ast + symtable; dir() and signatures of the "
+        "installed modules) and Lean decides it: all_resolve (decide +kernel, no extra axiom), lifted by subsetSorted_sound to every_reference_resolves; the listed known-finding call site is PROVED to be an arity error "
+        "(known_bad_really_bad). (a) purity / determinism / layout independence - decided by observation only: ~100 public functions x {C, Fortran, strided view, int64} representations, deep argument snapshots, repeated calls.",
+   note=TB + " (a) is partial: aliasing, in-place writes and hidden module state are runtime behaviour the value-level model cannot exhibit. Trusted for (b): CPython symtable/ast, hasattr/inspect.signature on the live modules.",
+   tech="translator (ast+symtable) regenerating a finite link table decided by Lean's kernel (decide +kernel) + observational layout/purity harness",
+   ref="DESIGN.md §3 C20"),
+})
 NA = {}
 props = [json.loads(l) for l in open(os.path.join(V, 'properties.jsonl'))]
 checks = []
